@@ -311,7 +311,7 @@ def main(tier, seed, only=None):
             for fl in _flagsets("some"):
                 for opt in ("to_humans", "to_animals"):
                     for store in (True, False):
-                        for rot in (False, True):
+                        for rot in ((False, True) if N >= 13 else (False,)):     # the relocation branch asserts a horizon longer than harvest duration + rotation delay (10 months)
                             cases.append(dict(N=N, opt=opt, store=store, flags=fl, retail=6.08 if N != 13 else 24.98, rotation=rot))
         core = dict(SEAWEED=False, OUTDOOR_GROWING=True, STORED_FOOD=True, MEAT=True, METHANE_SCP=False, CELLULOSIC_SUGAR=False)
         for fl in (full, core):
